@@ -170,7 +170,15 @@ fn one_case<G: HG, const N: usize>(ctx: &mut Ctx, idx: usize) {
     };
     open(ctx, &elem, &cd, &bf, &ms, Some(true), "original");
     // single-coordinate perturbations: must be rejected when the generator is not the identity
-    for i in 0..N {
+    // (long tuples: both ends, the neighbourhood of every power of two from 16 on, and a random sample)
+    let positions: Vec<usize> = if N <= 40 { (0..N).collect() } else {
+        let mut v = vec![0, 1, N - 2, N - 1];
+        for b in [16usize, 32, 64, 128] { for d in [b - 1, b, b + 1] { if d < N { v.push(d); } } }
+        for _ in 0..6 { v.push(ctx.prng.gen_range(0..N)); }
+        v.sort(); v.dedup();
+        v
+    };
+    for i in positions {
         let mut ms2 = ms.clone();
         ms2[i] = perturb(&mut ctx.prng, &ms[i]);
         let exp = if gs[i] != Scalar::zero() { Some(false) } else { Some(true) };
@@ -205,6 +213,8 @@ macro_rules! for_all_n {
             13 => $f::<$g, 13>($ctx, $idx),
             17 => $f::<$g, 17>($ctx, $idx),
             33 => $f::<$g, 33>($ctx, $idx),
+            65 => $f::<$g, 65>($ctx, $idx),
+            129 => $f::<$g, 129>($ctx, $idx),
             _ => unreachable!(),
         }
     };
@@ -212,7 +222,7 @@ macro_rules! for_all_n {
 
 pub fn run(ctx: &mut Ctx) {
     let reps = if ctx.thorough() { 300 } else { 8 };
-    let ns = [1usize, 2, 3, 5, 8, 13, 17, 33];
+    let ns = [1usize, 2, 3, 5, 8, 13, 17, 33, 65, 129];
     let mut idx = 0;
     for rep in 0..reps {
         for &n in ns.iter() {
